@@ -31,6 +31,7 @@ local S = string
 for k = 1, #cases do
   local c = cases[k]
   local f = S[c[1]]
+  if c[1] == "gmatch" then f = function(...) return S.gmatch(...)() end end   -- first match of the iteration
   local n = c.n
   if n == 0 then emit(pcall(f))
   elseif n == 1 then emit(pcall(f, c[2]))
